@@ -136,6 +136,11 @@ def run(ctx):
                          exceptions={"samples_mut": "parse_samples resets Samples field-wise (keys cleared, every values row cleared in a loop, "
                                                     "then resized): an element-wise reset the whole-object rule cannot follow"})
 
+    ctx.rule("C09.R11", "A10 element-wise reset: every per-sample value row of the reused Samples is cleared before parse_values fills it "
+                        "(parse_values returns Ok without touching its destination for a `.` column)")
+    a10.element_reset_rule(ctx, "C09.R11", "noodles_vcf::io::reader::record_buf::samples::parse_samples", 3, "values",
+                           "noodles_vcf::variant::record_buf::samples::Samples", "Samples.values (one row per sample)")
+
     ctx.rule("C09.R6", "A10 append-buffer discipline: VCF readers reset their line buffer before every appended line")
     a10.discipline_rule(ctx, "C09.R6", r"^<?noodles_vcf::", 8)
 
